@@ -101,7 +101,7 @@ class Est:
         return True
 
 
-SHAPES = ["ring", "ringtail", "clique", "diamond", "parallel", "selfclone", "random", "chain", "twocycles", "none"]
+SHAPES = ["ring", "ringtail", "clique", "diamond", "parallel", "selfclone", "random", "chain", "twocycles", "fanin", "none"]
 
 
 def build_shape(rng, e, shape, k, unrecorded_p=0.0):
@@ -148,6 +148,22 @@ def build_shape(rng, e, shape, k, unrecorded_p=0.0):
         if k >= 3:
             e.edge(0, 2, rec())
             e.edge(2, 0, rec())
+    elif shape == "fanin":
+        # a hub R whose targets all lead back to it, one target X having two in-group owners (R and Q):
+        # the order in which R's table is walked decides what the work list looks like
+        if k >= 3:
+            x = k - 1
+            q = k - 2
+            for y in range(1, k - 2):
+                e.edge(0, y, rec())
+                e.edge(y, 0, rec())
+            e.edge(0, q, rec())
+            e.edge(0, x, rec())
+            e.edge(q, x, rec())
+            e.edge(x, 0, rec())
+        else:
+            for i in range(k):
+                e.edge(i, (i + 1) % k, rec())
     elif shape == "random":
         for _ in range(rng.randint(1, 2 * k + 1)):
             e.edge(rng.randrange(k), rng.randrange(k), rec())
@@ -230,7 +246,8 @@ NOADOPT_ALPHA = ["new", "clone", "clone", "drop", "drop", "drop", "store", "stor
                  "upgrade", "upgrade", "cloneWeak", "dropWeak", "dropWeak", "storeWeak", "tryUnwrap", "dropValue",
                  "makeMut", "getMut", "intoRaw", "fromRaw", "incStrong", "decStrong", "ptrEq", "counts", "wcounts"]
 SCRIPT_ACTS = ["clone {r}", "drop {r}", "link {r} {q}", "unlink {r} 0", "downgrade {r}", "upgrade {w}", "dropWeak {w}",
-               "upgradeField {k}", "counts {r}", "unadopt {r} {q}", "wcounts {w}", "cloneWeak {w}"]
+               "upgradeField {k}", "downgradeField {k}", "downgradeField {k}", "counts {r}", "unadopt {r} {q}", "wcounts {w}",
+               "cloneWeak {w}"]
 
 
 def stream_contract(seed, n, max_obj=5, max_mix=10, unrecorded_p=0.15):
